@@ -204,7 +204,71 @@ def build_coq(pid, tier="quick"):
             return res
     res["ok"] = True
     res["discharged"] = len(thms)
+    if pid in SUPPLEMENTS:
+        build_supplement(pid, tier, res)
     return res
+
+
+# Supplementary theorem files: theorems about the *specification* that connect it to an outside
+# formalisation (Flocq).  They use Coq's real numbers, hence the standard library's axioms below; each
+# axiom a supplement may use is allow-listed by name, anything else fails the check.  The code-level
+# theorems in props/<id>.v stay axiom-free and are checked separately above.
+STDLIB_REAL_AXIOMS = {
+    "ClassicalDedekindReals.sig_forall_dec", "ClassicalDedekindReals.sig_not_dec",
+    "FunctionalExtensionality.functional_extensionality_dep", "Classical_Prop.classic",
+}
+SUPPLEMENTS = {"C12": ("C12_flocq", STDLIB_REAL_AXIOMS)}
+
+
+def build_supplement(pid, tier, res):
+    name, allow = SUPPLEMENTS[pid]
+    prop_v = os.path.join(COQ, "props", name + ".v")
+    src = strip_coq_comments(open(prop_v).read())
+    thms = re.findall(r"^\s*Theorem\s+(\w+)", src, re.M)
+    pa_names = re.findall(r"^\s*Print Assumptions\s+(\w+)", src, re.M)
+    res["obligations"] += len(thms)
+    res["theorems"] = res["theorems"] + thms
+    vo = os.path.join(COQ, "props", name + ".vo")
+    if os.path.exists(vo):
+        os.remove(vo)
+    rc, out = sh("timeout 1500 make -j%d props/%s.vo 2>&1" % (NPROC, name), cwd=COQ, timeout=1600)
+    res["ok"] = False
+    if rc != 0:
+        m = re.search(r'File "\./?([^"]+)", line (\d+)', out)
+        res["failed"] = "%s:%s" % (m.group(1), m.group(2)) if m else "make failed (%s)" % name
+        res["detail"] = out[-3000:]
+        return
+    if [t for t in thms if t not in pa_names]:
+        res["failed"] = "props/%s.v: theorem without Print Assumptions" % name
+        return
+    # every axiom line is "<qualified name>" optionally followed by " : type"; continuation lines are indented
+    used = set(re.findall(r"^([A-Z][\w.]*\.[\w']+)(?=\s|$)", out[out.find("Axioms:"):] if "Axioms:" in out else "", re.M))
+    n_blocks = out.count("Axioms:") + out.count("Closed under the global context")
+    if n_blocks < len(pa_names):
+        res["failed"] = "props/%s.v: %d Print Assumptions answers for %d theorems" % (name, n_blocks, len(pa_names))
+        return
+    extra = sorted(used - allow)
+    res["axioms"] = {name: sorted(used)}
+    if extra:
+        res["failed"] = "props/%s.v: axiom outside the allow-list: %s" % (name, ", ".join(extra))
+        return
+    if tier == "thorough":
+        rc, out = sh("timeout 1500 coqchk -o -silent -Q model FP -Q gen FP -Q spec FP -Q proofs FP -Q props FP FP.%s 2>&1" % name,
+                     cwd=COQ, timeout=1600)
+        summ = out[out.find("CONTEXT SUMMARY"):] if "CONTEXT SUMMARY" in out else out[-1500:]
+        flat = " ".join(summ.split())
+        res["coqchk_" + name] = flat[:900]
+        m = re.search(r"\* Axioms:(.*?)\* Constants/Inductives relying on type-in-type", flat)
+        chk_ax = set(re.findall(r"([A-Z][\w.]*\.[\w']+)", m.group(1))) if m else {"<unparsed>"}
+        # coqchk prefixes library names with Coq.<dir>.; compare on the last two components
+        short = lambda a: ".".join(a.split(".")[-2:])
+        extra = sorted(a for a in chk_ax if short(a) not in {short(b) for b in allow})
+        want = ["type-in-type: <none>", "unsafe (co)fixpoints: <none>", "positivity is assumed: <none>"]
+        if rc != 0 or extra or any(w not in flat for w in want):
+            res["failed"] = "coqchk FP.%s: %s" % (name, (", ".join(extra) + " " + flat)[:300])
+            return
+    res["ok"] = True
+    res["discharged"] += len(thms)
 
 
 def build_driver():
@@ -623,9 +687,14 @@ def main():
         coverage=dict(
             obligations=max(1, proof["obligations"]), discharged=proof["discharged"],
             checker_cmd="make -C coq props/%s.vo (coqc 8.16.1, full .vo) + Print Assumptions + forbidden-token scan" % pid,
-            trusted_base=TRUSTED_BASE,
+            trusted_base=TRUSTED_BASE + ([
+                "supplementary file coq/props/%s.v (specification = Flocq's IEEE-754 rounding; imports Flocq and Coq Reals): "
+                "standard-library axioms %s, allow-listed by name; the theorems of props/%s.v itself use none"
+                % (SUPPLEMENTS[pid][0], ", ".join(sorted(SUPPLEMENTS[pid][1])), pid)] if pid in SUPPLEMENTS else []),
             theorems=proof["theorems"], proof_ok=proof["ok"], proof_failed_at=proof["failed"],
             coqchk=proof.get("coqchk", "not run in the quick tier"),
+            supplement_axioms=proof.get("axioms") or None,
+            supplement_coqchk=next((v for k, v in proof.items() if k.startswith("coqchk_")), None),
             source_files_changed_since_model=(src_changed if (okd and okh and not replay) else None),
             constants=proof.get("consts"),
             evaluations=len(lines), distinct_nontrivial=nt,
